@@ -49,6 +49,7 @@ def run(chk: Check) -> None:
     run_def_or_infer(chk, get_index())
     run_phase_handover(chk, get_index())
     run_dedupe_state(chk, get_index())
+    run_reload_meta(chk, get_index())
     ix = get_index()
 
     # ---------------- R07.1
@@ -389,3 +390,33 @@ def run_dedupe_state(chk: Check, ix) -> None:
             r8.ok(key, aei.loc(tested[a]))
         else:
             r8.violation(key, aei.loc(tested[a]), f"`{a}` is consulted and updated per process only; neither the coordinator nor the worker protocol mentions it, so every worker prints its own copy of a once-per-build message (sequential: once)")
+
+
+def run_reload_meta(chk: Check, ix) -> None:
+    """R07.9: a worker refreshes the cache meta of every dependency module it loads."""
+    r9 = chk.rule("R07.9", "maybe_load_deps, in a parallel worker, calls reload_meta() for every module of every dependency SCC it is about to load from the cache, unconditionally: the State objects a worker received carry interface hashes from before the build, and what it writes into dep_hashes must be the hash of what it actually loads", floor=1)
+    f = ix.func("mypy.build.maybe_load_deps")
+    from ..cfg import branch_conditions
+    par = f.module.parents()
+    calls = [c for c in ast.walk(f.node) if isinstance(c, ast.Call) and call_name(c) == "reload_meta"]
+    if not calls:
+        r9.violation("maybe_load_deps reloads the meta of every dependency module (worker)", f.loc(), "no reload_meta() call: workers keep pre-build interface hashes of their dependencies")
+        return
+    c = calls[0]
+    st = c
+    while not isinstance(st, ast.stmt):
+        st = par[st]
+    pos, neg = branch_conditions(par, f.node, st)
+    conds = [norm(x) for x in pos] + ["not (" + norm(x) + ")" for x in neg]
+    loops = []
+    p_ = par.get(st)
+    while p_ is not None and p_ is not f.node:
+        if isinstance(p_, ast.For):
+            loops.append(norm(p_.iter))
+        p_ = par.get(p_)
+    extra = [x for x in conds if x not in ("manager.parallel_worker", "missing_sccs")]
+    key = "maybe_load_deps reloads the meta of every dependency module (worker)"
+    if not extra and any(".mod_ids" in l for l in loops) and any("fresh_sccs_to_load" in l for l in loops):
+        r9.ok(key, f.loc(c))
+    else:
+        r9.violation(key, f.loc(c), f"reload_meta() runs under {conds} over {loops}: some dependency modules keep the interface hash they had when the graph was sent, although they may have been re-checked since (their source unchanged, their own dependency changed); this worker then records the old hash in dep_hashes and a later build trusts it")
